@@ -350,24 +350,24 @@ func (d *ShellGrantData) ReadFrom(r io.Reader) (int64, error) {
 
 // WriteTo writes serialized local pf grant data
 func (d *LocalPFGrantData) WriteTo(w io.Writer) (int64, error) {
-	panic("LocalPFGrantData WriteTo: unimplemented")
+	return 0, errors.New("LocalPFGrantData WriteTo: unimplemented")
 }
 
 // ReadFrom reads a serialized commandgrantdata block
 func (d *LocalPFGrantData) ReadFrom(r io.Reader) (int64, error) {
 	// read command
-	panic("LocalPFGrantData ReadFrom: unimplemented")
+	return 0, errors.New("LocalPFGrantData ReadFrom: unimplemented")
 }
 
 // WriteTo writes serialized remote pf grant data
 func (d *RemotePFGrantData) WriteTo(w io.Writer) (int64, error) {
-	panic("RemotePFGrantData WriteTo: unimplemented")
+	return 0, errors.New("RemotePFGrantData WriteTo: unimplemented")
 }
 
 // ReadFrom reads a serialized commandgrantdata block
 func (d *RemotePFGrantData) ReadFrom(r io.Reader) (int64, error) {
 	// read command
-	panic("RemotePFGrantData ReadFrom: unimplemented")
+	return 0, errors.New("RemotePFGrantData ReadFrom: unimplemented")
 }
 
 // ReadIntentRequest reads intent request and returns intent
